@@ -39,7 +39,10 @@ ASSUMPTIONS = ["Python's eval(repr(x)) == x for str/int/bool/None and keyword co
 MODEL_COVERAGE = "gentest.nondefault_repr (Repr.lean), parse_file/parse_string/CxxParser.__init__ content selection (Entry.lean)"
 
 NONASCII = ["// café 中文\nint x;\n", "const char* s = \"über €\"; // é\n", "/// döc\nint y; ///< träiling\n",
-            "namespace n { /* ñ */ int z = 1; }\n"]
+            "namespace n { /* ñ */ int z = 1; }\n",
+            # characters outside the Basic Multilingual Plane (surrogate pairs in UTF-16 / JSON)
+            "/// returns a smile \U0001F600\nint smile();\n", "const char* s = u8\"\U0001F600 \U0001D400\";\n",
+            "struct S { int m; ///< member \U0001D400\n};\n", "#pragma message(\"\U0001F600\")\n"]
 
 
 def tag(v):
